@@ -617,35 +617,6 @@ impl Tree {
         }
     }
 
-    /// Path of an inode (None if unreachable).
-    pub fn path_of(&self, target: Ino) -> Option<String> {
-        fn rec(t: &Tree, cur: Ino, target: Ino, acc: &mut Vec<String>) -> bool {
-            if cur == target {
-                return true;
-            }
-            if let Some(Node::Dir(m)) = t.nodes.get(&cur) {
-                for (n, i) in m {
-                    acc.push(n.clone());
-                    if rec(t, *i, target, acc) {
-                        return true;
-                    }
-                    acc.pop();
-                }
-            }
-            false
-        }
-        let mut acc = vec![];
-        if rec(self, ROOT, target, &mut acc) {
-            Some(if acc.is_empty() {
-                "/".to_string()
-            } else {
-                format!("/{}", acc.join("/"))
-            })
-        } else {
-            None
-        }
-    }
-
     /// (parent inode, name) of an inode
     pub fn parent_of(&self, target: Ino) -> Option<(Ino, String)> {
         for (i, n) in &self.nodes {
